@@ -115,7 +115,8 @@ Case ==
       src |-> "gen"]
 
 Mix == Lcg(Hash, Seed)
-Selected == /\ (Mix % Thin = 0)
+\* unlimited precision (0) is never thinned: those cases are cheap and each one is a required class
+Selected == /\ (prec = 0 \/ Mix % Thin = 0)
             /\ (AllModes \/ mode = 1 + ((Mix \div Thin) % 6))
 Emit == (phase = "done" /\ Selected) => PrintT(<<"GEN", ToJson(Case)>>)
 =============================================================================
